@@ -133,6 +133,30 @@ def run():
     c = b.find_calls('std::collections::HashSet::contains')[0]
     a = eb.arg(c, 1)
     res.append(('P1 flow-sensitive read', a.has_field('winner') and not a.has_field('key'), repr(a)))
+    # who-may-write
+    from lib import field_mutators
+    m = field_mutators(F, 'Owner', 'table')
+    roots = set()
+    for body in m:
+        pth = body.npath
+        while '::{closure#' in pth:
+            pth = pth[:pth.rindex('::{closure#')]
+        roots.add(pth.rsplit('::', 1)[-1])
+    res.append(('P8 writers of a field found (push, index assignment, closure)', roots == {'add', 'patch', 'drain_some'},
+                str(sorted(roots))))
+    m2 = {b.npath.rsplit('::', 1)[-1] for b in field_mutators(F, 'Owner', 'other')}
+    res.append(('P8 reader is not a writer', m2 == {'bump'}, str(sorted(m2))))
+    # sequencing through phi alternatives
+    from props.C07 import alternatives
+    for name, want in (('step_good', True), ('step_bad', False)):
+        b = F.one(name)
+        eb = ExprBuilder(b)
+        up = b.find_calls('Filt::update')[0]
+        alts = alternatives(eb.arg(up, 1))
+        allp = bool(alts) and all(x.kind == 'call' and x.name.endswith('predict') for x in alts)
+        cnt = count_on_paths(b, 0, b.returns(), [c.bb for c in b.find_calls('Filt::predict')])
+        res.append(('P9 %s: update takes a predicted state on every path' % name,
+                    (allp and cnt == (1, 1)) == want, '%r %r' % (alts, cnt)))
     return res
 
 
